@@ -32,7 +32,11 @@ from harness import common
 from harness.common import Failure, lean_run
 
 PROP_MODULES = ["ArmiVerif.Props.C01"]
-PARTIAL = ("deepcopy and pickle are one model operation (both go through __getstate__/__setstate__); the payload of a "
+PARTIAL = ("query results are VALUES in the model (fresh by construction): aliasing of a result with the live child list and "
+           "per-object caches going stale are carried by the implementation-side oracle (mutate / keep every list result, "
+           "query battery after every edit on the same parent) plus the idiom theorems (setChildren_exact, reorder_idiom, "
+           "drain_idiom, aliased_drain_skips, typed_queries_follow_edits); "
+           "deepcopy and pickle are one model operation (both go through __getstate__/__setstate__); the payload of a "
            "copy (parameters, serial numbers) is C16's; locator/grid content beyond attached/detached/owner is C07's; payload (parameter) equality of "
            "copies is C16's; the sort comparator (__lt__ on locators / component diameters) is a parameter of the "
            "model (ranks computed with the real __lt__); Core.add bookkeeping beyond the child list and locator "
@@ -268,7 +272,9 @@ class Session:
             if x is not None:
                 ctx.fail(f"{what}-cycle", "the parent relation has no cycle", self.case(), observed=self.idx(o))
         for o in self.removed:
-            if o.parent is not None or (o.spatialLocator is not None and o.spatialLocator.grid is not None):
+            loc = o.spatialLocator
+            cells = list(loc) if type(loc).__name__ == "MultiIndexLocation" else []
+            if o.parent is not None or (loc is not None and loc.grid is not None) or any(q.grid is not None for q in cells):
                 ctx.fail(f"{what}-removed-object-not-detached", "an object taken out has no parent and a detached location",
                          self.case(), observed=self.idx(o))
 
@@ -778,6 +784,10 @@ class Session:
 
     def do_copy(self, n):
         how = self.rng.choice(["deepcopy", "pickle"])
+        if self.rng.random() < 0.5:
+            # query - copy - query: whatever the queries left on the original (per-object caches) travels with the copy
+            self.focus = n
+            self.battery()
         before = [{"owner_self": x.spatialGrid is not None and x.spatialGrid.armiObject is x,
                    "kids_in_grid": [c.spatialLocator is not None and c.spatialLocator.grid is x.spatialGrid for c in x],
                    "kids": [id(c) for c in x], "parent": x.parent} for x in [n] + naive_deep(n)]
@@ -844,6 +854,7 @@ class Session:
             if [id(c) for c in x] != was["kids"] or (x is not n and x.parent is not was["parent"]):
                 ctx.fail(f"{how}-original-changed", "copying does not edit the original", case, observed=self.idx(x))
         self.after(f"copy {self.idx(n)}", True, how)
+        self.focus = cp      # the battery after this op (and, half of the time, the next edit) goes to the copy
         return cp
 
     def ranks(self, p):
@@ -1030,6 +1041,25 @@ def make_generic(ses):
 
 
 def run_sequence(ctx, shape, seq_seed, batch, nops, nq):
+    """`_run_sequence`, with any raise out of the real code during the set-up of the sequence (building / copying the
+    fixture objects) turned into a keyed failure"""
+    import traceback
+
+    try:
+        return _run_sequence(ctx, shape, seq_seed, batch, nops, nq)
+    except (common.Infra, KeyboardInterrupt):
+        raise
+    except Exception as e:  # noqa: BLE001
+        tb = traceback.extract_tb(e.__traceback__)
+        inarmi = [f"{os.path.basename(f.filename)}:{f.lineno} {f.name}" for f in tb if "/armi/" in f.filename]
+        if not inarmi:
+            raise
+        ctx.fail("setup-raises", "building and copying the objects a valid-use history starts from completes (the real code raised)",
+                 {"shape": shape, "seq_seed": seq_seed}, observed={"exception": repr(e)[:200], "armi_frames": inarmi[-4:]})
+        return None
+
+
+def _run_sequence(ctx, shape, seq_seed, batch, nops, nq):
     """Generate and execute one valid-use edit sequence on real objects; returns the session."""
     ses = Session(ctx, shape, seq_seed, batch)
     _CTX[0] = ctx
@@ -1049,9 +1079,7 @@ def run_sequence(ctx, shape, seq_seed, batch, nops, nq):
         for k in range(rng.randint(1, 2)):
             ses.create(null_component(f"nullfree{k}"))
         if rng.random() < 0.5:
-            try:
-                prelude_mixed(ses, b)
-            except _Broken:
+            if not _guarded(ses, "op", lambda: prelude_mixed(ses, b)):
                 return ses
         ops = ["add", "add", "add", "insert", "remove", "remove", "removeAll", "setChildren", "sort", "copy", "copychild",
                "group", "group", "moveto", "moveto", "replace"]
@@ -1275,7 +1303,8 @@ def _call(fn, multi=False):
 
 def _one_op(ses, op, shape, core):
     rng = ses.rng
-    objs = ses.objs
+    # (placeholders of unreachable temporaries stand for objects the real code has dropped: never operands)
+    objs = [o for o in ses.objs if id(o) not in ses.dead]
     K = kind_of
     if shape == "generic":
         parent_kinds = (K_COMPOSITE, K_COMPONENT) if rng.random() < 0.1 else (K_COMPOSITE,)
@@ -1677,7 +1706,17 @@ def plan(ctx):
 def run(ctx):
     batch = {"req": [], "impl": [], "cases": []}
     excl = {"req": [], "impl": [], "cases": []}
-    excluded_points(ctx, excl)
+    try:
+        excluded_points(ctx, excl)
+    except common.Infra:
+        raise
+    except Exception as e:  # noqa: BLE001
+        import traceback
+
+        if not any("/armi/" in f.filename for f in traceback.extract_tb(e.__traceback__)):
+            raise
+        ctx.fail("directed-point-raises", "the directed edit / copy points complete (the real code raised)", {"directed": "excluded points"},
+                 observed=repr(e)[:200])
     todo = plan(ctx)
     # generic composites first: they need no reactor fixture
     for shape, seq_seed, nops in todo:
@@ -1691,7 +1730,11 @@ def run(ctx):
         ctx.disagree("the smallest test reactor can no longer be built (blueprints construction deep-copies assemblies)",
                      {"shape": "generic", "seq_seed": 0}, "loads", repr(e)[:300])
     if have_fixture:
-        directed_reactor_copy(ctx)
+        try:
+            directed_reactor_copy(ctx)
+        except Exception as e:  # noqa: BLE001
+            ctx.fail("copy-raises", "a deep copy / pickle round trip of the reactor completes", {"directed": "copy of the smallest test reactor"},
+                     observed=repr(e)[:200])
         for shape, seq_seed, nops in todo:
             if shape != "generic":
                 run_sequence(ctx, shape, seq_seed, batch, nops, nq=4)
